@@ -229,6 +229,24 @@ fn probe(args: &Args) {
             println!("SHORT q={} lgwin={} t={} n={} kind={}: favor-off class={} len={} | favor-on class={} len={} same-bytes={} decode={} {}", q, lgwin, t, n, kind, off.class, off.bytes.len(), on.class, on.bytes.len(), on.bytes == off.bytes, d_on, on.msg);
         }
     }
+    if which == "sized" {
+        // worst case for the advertised bound: many threads x incompressible block-aligned pieces
+        let mut worst: i64 = i64::MIN; let mut fails = 0; let mut total = 0;
+        for q in 2..=9 { for t in [8usize, 13, 14, 15, 16] { for k in [1usize, 2] { for r in [0usize, 1, 2, 3, 5] { for lgwin in [10, 14, 16, 17, 18, 22] { for (magic, large) in [(false, false), (true, false), (true, true)] {
+            let piece = 16384 * k + r;
+            let n = piece * t;
+            let mut rng = Rng::new((q as u64) << 32 | (t as u64) << 16 | r as u64);
+            let input = gen_input(&mut rng, n, 0);
+            let mut p = mk_params(q, if large { 24 } else { lgwin }, false, false, false, magic, large);
+            p.size_hint = 0;
+            let bound = BrotliEncoderMaxCompressedSizeMulti(n, t);
+            let o = run_multi(Spawner::Inline, &p, &input, t, bound + 4096, None);
+            total += 1;
+            if o.class == "ok" { let margin = bound as i64 - o.bytes.len() as i64; if -margin > worst { worst = -margin; println!("SIZED q={} t={} piece={} lgwin={} magic={} large={} -> len={} bound={} margin={}", q, t, piece, lgwin, magic, large, o.bytes.len(), bound, margin); } if margin < 0 { fails += 1; } }
+            else { println!("SIZED q={} t={} piece={} lgwin={} magic={} large={} -> {}", q, t, piece, lgwin, magic, large, o.class); }
+        } } } } } }
+        println!("SIZED total={} over-bound={} worst(len-bound)={}", total, fails, worst);
+    }
     if which == "d16grid" {
         // favor on/off over quality x {no truncation, truncation}; counts of differing / wrong outputs
         for q in 0..=11 {
@@ -476,12 +494,23 @@ fn search_case(c: &Case, rep: &mut Report, pool: &mut Pool, rng: &mut Rng) {
             check(&o, sp.name(), cp, rep);
         }
     }
-    // every job recomputed: Ok must mean a finished stream (compress_part cannot see a truncated part)
+    // every job recomputed: Ok must mean a finished stream; size hypotheses of
+    // `multi_succeeds_when_sized_partial` are recorded (slack histogram) and checked (splice room) (compress_part cannot see a truncated part)
     if c.n <= 60000 && !heavy {
-        for (i, j) in recompute_jobs(&params, &input, t).iter().enumerate() {
+        let mut sum_jobs = 0usize;
+        let jobs = recompute_jobs(&params, &input, t);
+        for (i, j) in jobs.iter().enumerate() {
+            if let Some(b) = &j.bytes { let pl = j.hi - j.lo; let slack = b.len() as i64 - (pl + 4 * (pl >> 14)) as i64; rep.count(&format!("slack.{}.{}", if i == 0 { if c.magic { "job0_magic" } else { "job0" } } else { "jobi" }, if slack < 0 { "neg".to_string() } else { format!("{:02}", slack) })); }
             if j.bytes.is_some() && !j.finished { rep.violation("multi:part-truncated", &format!("job {} reports Ok({}) for an unfinished stream (buffer of BrotliEncoderMaxCompressedSize({}) bytes too small)", i, j.bytes.as_ref().unwrap().len(), j.hi - j.lo), c.json("")); }
             if j.token == "err" || j.token == "spin" || j.token == "panic" { rep.count(&format!("job.{}", j.token)); }
+            sum_jobs += j.bytes.as_ref().map(|b| b.len()).unwrap_or(0);
             if j.calls.len() > 1 { rep.count("job.multi_call"); }
+        }
+        // assumption `SpliceRoom` of multi_succeeds_when_sized_partial: the stitched stream is never
+        // longer than the job outputs together (+1 for the empty-stream byte)
+        if th.class == "ok" && jobs.iter().all(|j| j.bytes.is_some()) {
+            rep.count("splice_room.checked");
+            if th.bytes.len() > sum_jobs + 1 { rep.violation("multi:assumption:splice-expands", &format!("stitched output {} bytes > sum of job outputs {} + 1", th.bytes.len(), sum_jobs), c.json("")); }
         }
     }
 }
